@@ -193,6 +193,22 @@ func plonkAcceptReplay(c fieldCase, cm types.CommonCircuitData, r *Run) string {
 			return "openings that violate plonky2's vanishing identity (" + pert + " + 1) are accepted by the real PlonkChip.Verify"
 		}
 	}
+	// crafted perturbations: move Z_H(zeta)*t(zeta) of one round by exactly one unit in exactly one
+	// coordinate (an identity that is off in a single limb must be rejected too)
+	for i := 0; i < nc; i++ {
+		for ui, u := range [][2]*big.Int{{big.NewInt(1), big.NewInt(0)}, {big.NewInt(0), big.NewInt(1)}} {
+			k0, k1 := fmt.Sprintf("quot%d_0", i*qdf), fmt.Sprintf("quot%d_1", i*qdf)
+			o0, o1 := env[k0], env[k1]
+			d := extMulN(u, zhi)
+			env[k0] = new(big.Int).Mod(new(big.Int).Add(o0, d[0]), P)
+			env[k1] = new(big.Int).Mod(new(big.Int).Add(o1, d[1]), P)
+			ok, _ := runCaseOnEngine(c, hooks, names, env)
+			env[k0], env[k1] = o0, o1
+			if ok {
+				return fmt.Sprintf("openings whose vanishing identity of round %d is off by one in coordinate %d only (first quotient chunk + unit/Z_H(zeta)) are accepted by the real PlonkChip.Verify", i, ui)
+			}
+		}
+	}
 	return ""
 }
 
